@@ -551,12 +551,40 @@ theorem invM_assignT {env : Env W HS} {P : St W HS → Prop} {Q : Val → Prop} 
       rw [assignT_attr_other env e a ann v hn]
       exact invT kit (.attr e a) ht' v hv
   | sub e i =>
-    have hn : ∀ b, e ≠ .name b := by
-      intro b hb; subst hb; simp [coreAssignT] at ht
-    have ht' : coreT (.sub e i) = true := by
-      cases e <;> first | (exfalso; exact hn _ rfl) | simpa [coreAssignT, coreT] using ht
-    rw [assignT_sub_other env e i ann v hn]
-    exact invT kit (.sub e i) ht' v hv
+    by_cases hname : ∃ b, e = .name b
+    · obtain ⟨b, rfl⟩ := hname
+      simp only [coreAssignT, Bool.and_eq_true] at ht
+      obtain ⟨⟨hb, hci⟩, hsi⟩ := ht
+      have tail : InvM P Q (fun _ => True) (evalE env i >>= fun k =>
+          hook env b ann v true (keyVal "index" k) >>= fun r => lookup env b >>= fun o =>
+          liftW (env.host.setitem o k r)) :=
+        invM_bind (invE kit i hci) fun k hk =>
+          invM_bind (invM_hook kit b (by simp [bodyName, hb]) ann v hv true _) fun r hr =>
+            invM_bind (invM_lookup kit b hb) fun o ho =>
+              invM_liftW _ _ fun st hp => kit.setitem st o k r hp ho hk hr
+      by_cases hon : hookOn env b (annTags ann) true = true
+      · cases hc : isConst i with
+        | true =>
+          simp only [assignT, hon, if_true, hc, Bool.not_true, Bool.false_eq_true, if_false, pure_bind_M]
+          exact tail
+        | false =>
+          simp only [assignT, hon, if_true, hc, Bool.not_false, bind_assoc_M, pure_bind_M]
+          exact invM_bind (invM_lookup kit b hb) fun _ _ => tail
+      · simp only [assignT, hon, Bool.false_eq_true, if_false]
+        exact invT kit (.sub (.name b) i) (by simp [coreT, coreE, simpleE, hb, hci, hsi]) v hv
+    · have hn : ∀ b, e ≠ .name b := fun b hb => hname ⟨b, hb⟩
+      have ht' : coreT (.sub e i) = true := by
+        cases e <;> first | (exfalso; exact hn _ rfl) | simpa [coreAssignT, coreT] using ht
+      rw [assignT_sub_other env e i ann v hn]
+      exact invT kit (.sub e i) ht' v hv
+
+theorem invM_assignTs {env : Env W HS} {P : St W HS → Prop} {Q : Val → Prop} (kit : InvKit env P Q) :
+    (ts : List Target) → coreAssignTL ts = true → ∀ v, Q v → InvM P Q (fun _ => True) (assignTs env v ts)
+  | [], _, v, _ => by simp only [assignTs]; exact invM_pure _ _ trivial
+  | t :: ts, h, v, hv => by
+    simp only [coreAssignTL, Bool.and_eq_true] at h
+    simp only [assignTs]
+    exact invM_bind (invM_assignT kit t h.1 none v hv) fun _ _ => invM_assignTs kit ts h.2 v hv
 
 theorem invM_forM_setLoc {env : Env W HS} {P : St W HS → Prop} {Q : Val → Prop} (kit : InvKit env P Q) :
     (l : List (String × Val)) → (∀ p ∈ l, Q p.2) →
@@ -572,13 +600,9 @@ theorem invS {env : Env W HS} {P : St W HS → Prop} {Q : Val → Prop} (kit : I
     (s : Stmt) → coreS s = true → InvX P Q (execS env fuel s)
   | .assign ts v, h => by
     simp only [coreS, Bool.and_eq_true] at h
-    match ts, h with
-    | [t], h =>
-      simp only [execS, assignTs_single]
-      exact invX_stepM (invE kit v h.2) fun u hu =>
-        invX_stepM (invM_assignT kit t h.1 none u hu) fun _ _ => invX_done _ trivial
-    | [], h => simp at h
-    | _ :: _ :: _, h => simp at h
+    simp only [execS]
+    exact invX_stepM (invE kit v h.2) fun u hu =>
+      invX_stepM (invM_assignTs kit ts (by simpa using h.1.2) u hu) fun _ _ => invX_done _ trivial
   | .augassign t op v, h => by
     simp only [coreS, Bool.and_eq_true] at h
     have hv := invE kit v h.2
